@@ -33,7 +33,7 @@ if os.environ.get("VERIF_C13_2_APPLIED") in ("0", "1"):
 # SWITCH  C13_3_APPLIED — flip to True in the same commit that applies fixes/C13-3-single-precision-background.diff to /repo.
 # Single-precision images on a background (mean >> contrast).  False (unrepaired code): the torch estimators are off by
 # 0.03..0.4 px for up >= 4 already at mean = 30..300 x contrast (genuine defect, cases not judged), the numpy estimator is
-# judged for up >= 2 at mean = 100..110 x contrast with an integer-shift bound of 0.01 px (its measured floor there is 3e-4 px).
+# judged for up >= 2 at mean = 100..110 x contrast with an integer-shift bound of 0.01 px (its measured floor there is 6e-4 px over 4000 pairs).
 # True: both backends, mean = 100..1000 x contrast, every factor, the usual float32 bounds.  VERIF_C13_3_APPLIED=0/1 overrides.
 C13_3_APPLIED = False
 if os.environ.get("VERIF_C13_3_APPLIED") in ("0", "1"):
@@ -340,7 +340,7 @@ class J:
         if pedestal:
             self.prec = "f32ped"
             self.common["pedestal"] = True
-            if not C13_3_APPLIED:  # unrepaired numpy path: rounding of the zero-frequency term, measured floor 3e-4 px at mean = 110 x contrast
+            if not C13_3_APPLIED:  # unrepaired numpy path: rounding of the zero-frequency term, measured floor 6e-4 px at mean = 100..110 x contrast
                 self.tol0 = max(self.tol0, 0.01)
                 if kind == "int":
                     self.tol = self.tol0
